@@ -38,8 +38,8 @@ ASSUMPTIONS = [
 ]
 TECHNIQUE = "reference-model + relational (merged-category twin run) + intrinsic runtime monitors"
 DESIGN_REF = "DESIGN.md 4 C04"
-WEIGHTS = ["none", "frac", "zeros"]
-MSETS = [(), ("mean", "stddev"), (), ("valid_counts", "mean"), ("median", "sum"), ()]
+WEIGHTS = ["none", "frac", "zeros", "float"]
+MSETS = [(), ("mean", "stddev"), (), ("valid_counts", "mean"), ("median", "sum"), ("sq_weights",)]
 REQUIRED_REACH = [
     "a_count", "b_intersection", "c_merge", "d_nonadditive_nan", "e_diff_base_nan",
     "e_diff_x_diff_nan", "e_wave_diff", "e_wave_multi_nan", "strand_count", "strand_merge",
@@ -194,7 +194,7 @@ def _slice(res, L, case, t, part, nz):
         if attr == "counts" and V.valid_count_mode and not V.weighted:
             # weighted valid counts are absent: see finding KF-C04-valid-count-diff
             pass
-        ok, det = cmp.same(got.value, exp, exact=True) if got.ok else (
+        ok, det = cmp.same(got.value, exp, exact=cases.weights_exact(L.spec)) if got.ok else (
             False, {"exc": repr(got.exc)})
         cfg = ""
         if not ok and V.valid_count_mode and attr == "counts":
@@ -452,7 +452,11 @@ def _compare_merge(res, V, part, V2, part2, axis, k, k2, e):
             res.check("c_merge", False, "c/%s/shape" % attr, {"a": list(va.shape),
                                                               "b": list(vb.shape)})
             continue
-        ok, det = cmp.same(va[keep_o], vb[keep_o], rtol=1e-8, atol=1e-10)
+        atol = 1e-10
+        if V.inexact and ("std" in attr or "moe" in attr):
+            # square roots of rounding residues (1e-16 -> 1e-8), scaled by the population
+            atol = 4e-4 if attr.startswith("population") else 2e-7
+        ok, det = cmp.same(va[keep_o], vb[keep_o], rtol=1e-8, atol=atol)
         res.check("c_merge", ok, "c/%s/%s" % ("row" if axis == 0 else "column", attr), det)
     # marginals at the vector
     for attr in (ROW_MARG if axis == 0 else COL_MARG):
@@ -524,8 +528,8 @@ def _strand(res, L, case, part, nz):
             d = isinstance(e, tuple) and e[2]
             exp.append(o.count({0: e}, wt and weighted))
         got = read(part, attr)
-        ok, det = cmp.same(got.value, np.array(exp), exact=True) if got.ok else (
-            False, {"exc": repr(got.exc)})
+        ok, det = cmp.same(got.value, np.array(exp), exact=cases.weights_exact(L.spec)) \
+            if got.ok else (False, {"exc": repr(got.exc)})
         res.check("strand_count", ok, "strand/a/%s" % attr, det)
         if vc and got.ok and any(isinstance(e, tuple) and e[2] for e in elems):
             g_ = np.asarray(got.value, dtype=float)
